@@ -60,6 +60,7 @@ class World:
         self.ndisp = {}
         self.tick_plan = None     # (grant, wake) for the idle wait of the tick being run
         self.untimed_seen = False
+        self.last_wait = None
         self.clock = VClock(2 * self.sec, on_wait=self._on_wait, sink=self._on_wait_logged, unit=self.unit)
         self.line('cfg', 0, self.sec, 0)
 
@@ -169,6 +170,7 @@ class World:
         return grant, fn
 
     def _on_wait_logged(self, now, req_ceil, granted):
+        self.last_wait = (req_ceil, granted)
         self.log.append(L('idle', 0, req_ceil, granted, now))
 
     # -- operations ----------------------------------------------------------
@@ -253,13 +255,17 @@ class World:
                 tm = self.timers[t]
                 if tm.persist and self.in_tree(t) and not tm.unregister_pending:
                     self.do(('unreg', t))
+            self.last_wait = None
             self.tick(-1, 0)
-            if self.root._tasks:
-                # a wait bounded by TIMEOUT (less than a grid unit) lets no virtual time
-                # pass: the loop's own code takes a unit, or a sleeping task never ends
+            lw = self.last_wait
+            if self.root._tasks or (lw is not None and lw[1] == 0 and lw[0] < self.clock.untimed):
+                # a wait for less than a grid unit (TIMEOUT while tasks exist; an expiry the
+                # code keeps off the grid) lets no virtual time pass: the loop's own code takes
+                # a unit, or the loop would spin at a frozen clock for ever
                 self.clock.advance(1)
         if not self.untimed_seen:
             self.notes.append('epilogue-limit')
+            self.line('stall', 0, n, 0)
         self.root._running = False
         for _ in range(4):
             self.root.tick()
@@ -686,7 +692,9 @@ def _run(ctx, quick, rnd, suffix, pool):
                                'trace': [[ln['k'], ln['t'], ln['a'], ln['b'], ln['now']] for ln in lines[:14]],
                                'verdict': clause or 'accepted'})
         if 'epilogue-limit' in meta['notes'] and not clause:
-            raise tlc.MachineryError('the loop never came to rest although the trace is accepted: %s' % json.dumps(meta['script']))
+            # no timer is pending and yet the loop does not come to rest (e.g. a task that
+            # never ends): nothing C09 speaks about; recorded, never a verdict, never exit 2
+            ctx.note_drift('the loop never came to rest although the trace is accepted: %s' % json.dumps(meta['script']))
         if clause:
             ctx.violation(clause, witness_of(meta, lines, line, clause),
                           {'script': meta['script'], 'origin': meta['origin'], 'line': line, 'trace': fmt(lines).split('\n')})
